@@ -24,14 +24,16 @@ Proof. intros. rewrite skipn_app_le by auto. rewrite app_assoc, firstn_skipn. re
 Lemma concat_set_hd : forall (l : list (list tok)) x, l <> [] -> concat (set_hd l x) = x ++ concat (tl l).
 Proof. destruct l; simpl; intros; congruence. Qed.
 
+Lemma app_last_cons2 : forall (b b' : list tok) r x, app_last (b :: b' :: r) x = b :: app_last (b' :: r) x.
+Proof. reflexivity. Qed.
+
 Lemma concat_app_last : forall (l : list (list tok)) x, concat (app_last l x) = concat l ++ x.
 Proof.
-  induction l as [|b r IH]; intro x; simpl.
-  - rewrite app_nil_r. reflexivity.
+  induction l as [|b r IH]; intro x.
+  - simpl. rewrite app_nil_r. reflexivity.
   - destruct r as [|b' r'].
     + simpl. rewrite !app_nil_r. reflexivity.
-    + change (concat (b :: app_last (b' :: r') x) = (b ++ concat (b' :: r')) ++ x).
-      simpl concat at 1. rewrite IH. rewrite app_assoc. reflexivity.
+    + rewrite app_last_cons2. cbn [concat]. rewrite IH. cbn [concat]. rewrite <- !app_assoc. reflexivity.
 Qed.
 
 Lemma app_last_nonnil : forall (l : list (list tok)) x, app_last l x <> [].
@@ -40,7 +42,7 @@ Proof. destruct l as [|b [|b' r]]; simpl; intros; discriminate. Qed.
 Lemma concat_snoc_nil : forall (l : list (list tok)), concat (l ++ [[]]) = concat l.
 Proof. intro l. rewrite concat_app. simpl. rewrite app_nil_r. reflexivity. Qed.
 
-Lemma concat_map_nil : forall (l : list (list tok)), concat (map (fun _ => []) l) = [].
+Lemma concat_map_nil : forall (l : list (list tok)), concat (map (fun _ => @nil tok) l) = [].
 Proof. induction l; simpl; auto. Qed.
 
 Lemma length_zero_nil : forall (A : Type) (l : list A), length l = 0 -> l = [].
@@ -99,11 +101,11 @@ Proof.
   destruct pc.
   - (* FlLoad *)
     destruct (obs s) as [|b rest] eqn:Eo; [congruence|].
-    inv_some Hs. repeat split; auto; try congruence. rewrite Eo; discriminate.
-    unfold FlInv; cbn. destruct (Nat.ltb 0 (length b)) eqn:El; cbn; rewrite Eo; cbn; split; auto.
+    inv_some Hs. repeat split; auto; try congruence.
+    destruct (Nat.ltb 0 (length b)) eqn:El; unfold FlInv; cbn [fpc f_olen f_chunk f_n]; rewrite ?Eo; cbn [hd]; split; auto.
     apply Nat.ltb_ge in El. apply length_zero_nil. lia.
   - (* FlGet *)
-    inv_some Hs. destruct HI as [Hi Ho]. repeat split; auto. unfold FlInv; cbn. auto.
+    inv_some Hs. destruct HI as [Hi Ho]. repeat split; auto.
   - (* FlSend *)
     destruct e; try discriminate.
     destruct ((n0 <=? len) && (len <=? length chunk) && ((0 <? len) || (length chunk =? 0)))%bool eqn:Ec; [|discriminate].
@@ -116,25 +118,26 @@ Proof.
       rewrite app_assoc. rewrite firstn_skipn_app by lia. rewrite <- app_assoc. reflexivity. }
     destruct (Nat.eqb n0 0) eqn:E0; inv_some Hs; cbn.
     + apply Nat.eqb_eq in E0. subst n0. repeat split; auto. lia.
-    + repeat split; auto. unfold FlInv; cbn. repeat split; auto; lia.
+    + repeat split; auto. unfold FlInv; cbn. repeat split; auto; try lia. eapply Nat.le_trans; eauto.
   - (* FlSkip *)
     destruct HI as [Hi [Ho Hn]].
     destruct (Nat.ltb (length (hd [] (obs s))) n) eqn:El.
     + apply Nat.ltb_lt in El. lia.
-    + inv_some Hs. cbn. rewrite Hi. replace (n - n) with 0 by lia.
+    + injection Hs as Hs1 Hs2 Hs3; subst s' r l. cbn. rewrite Hi. replace (n - n) with 0 by lia.
       assert (Hc : concat (set_hd (obs s) (skipn n (hd [] (obs s)))) = skipn n (concat (obs s))).
-      { rewrite concat_set_hd by auto. rewrite (concat_hd _ (obs s) Hne) at 2. rewrite skipn_app_le by auto. reflexivity. }
-      repeat split; auto.
-      * destruct (obs s); simpl; discriminate.
-      * cbn [skipn]. rewrite Hc. rewrite <- Hi. exact HT.
-      * unfold FlInv; cbn. split; auto. destruct (obs s) as [|b rest]; [congruence|]. cbn in *.
-        rewrite skipn_length. lia.
+      { rewrite concat_set_hd by auto. rewrite (concat_hd _ (obs s) Hne). rewrite skipn_app_le by auto. reflexivity. }
+      assert (Hl : length (hd [] (set_hd (obs s) (skipn n (hd [] (obs s))))) = olen - n).
+      { destruct (obs s) as [|b rest]; [congruence|]. cbn in *. rewrite skipn_length. lia. }
+      assert (Hne' : set_hd (obs s) (skipn n (hd [] (obs s))) <> []) by (destruct (obs s); simpl; discriminate).
+      assert (HT' : wire s ++ concat (set_hd (obs s) (skipn n (hd [] (obs s)))) ++ discarded s = produced s).
+      { rewrite Hc. rewrite <- Hi. exact HT. }
+      unfold FlInv; cbn. repeat split; auto.
   - (* FlTotR *)
-    inv_some Hs. destruct HI as [Hi Ho]. repeat split; auto. unfold FlInv; cbn. auto.
+    inv_some Hs. destruct HI as [Hi Ho]. repeat split; auto.
   - (* FlTotW *)
     inv_some Hs. destruct HI as [Hi Ho]. cbn. repeat split; auto.
-    unfold FlInv, fl_set; cbn. destruct (Nat.ltb 0 olen) eqn:El; cbn; split; auto.
-    apply Nat.ltb_ge in El. apply length_zero_nil. lia.
+    destruct olen as [|olen']; unfold FlInv, fl_set; cbn; split; auto.
+    apply length_zero_nil. auto.
   - (* FlLen *)
     destruct HI as [Hi Hh].
     destruct (Nat.ltb 1 (length (obs s))) eqn:El; inv_some Hs; repeat split; auto.
@@ -142,8 +145,86 @@ Proof.
   - (* FlPop *)
     destruct HI as [Hi [Hh Hl]].
     destruct (obs s) as [|b rest] eqn:Eo; [congruence|].
-    inv_some Hs. cbn in *. subst b. repeat split; auto.
-    + destruct rest; simpl in *; [lia|discriminate].
-    + unfold FlInv, fl_set; cbn. auto.
+    inv_some Hs. cbn in *. subst b. unfold FlInv, fl_set; cbn.
+    assert (rest <> []) by (destruct rest; simpl in *; [lia|discriminate]).
+    repeat split; auto.
 Qed.
 End Fl.
+
+(* ------------------------------------------------------------ L3 *)
+
+Definition io_fl (pc : iopc) : option flst :=
+  match pc with IoHwFlU f | IoHwFlL f | IoRcSc (ScFl f) => Some f | _ => None end.
+Definition wk_fl (pc : wkpc) : option flst :=
+  match pc with WWsFl f | WKbSc (ScFl f) => Some f | _ => None end.
+Definition io_unl (pc : iopc) : bool := match pc with IoHwFlU _ => true | _ => false end.
+Definition is_iosc (pc : iopc) : bool := match pc with IoRcSc _ => true | _ => false end.
+Definition is_relx (pc : wkpc) : bool := match pc with WWsRelX => true | _ => false end.
+(* about to append to the output buffers *)
+Definition app_pc (pc : wkpc) : bool := match pc with WWsRot | WWsApp => true | _ => false end.
+(* handle_close has emptied the buffers / has released outbuf_lock again *)
+Definition io_closed (pc : iopc) : bool :=
+  match pc with
+  | IoHc h _ => match h with HcAcq | HcBufs => false | _ => true end
+  | IoHrWConn | IoDead => true
+  | _ => false
+  end.
+Definition io_after_close (pc : iopc) : bool :=
+  match pc with
+  | IoHc h _ => match h with HcNotify | HcRel | HcConn2 => true | _ => false end
+  | IoHrWConn | IoDead => true
+  | _ => false
+  end.
+
+(* inside task.service(): between the application call and the return of the last write_soon *)
+Definition in_task (pc : wkpc) : bool :=
+  match pc with
+  | WWsConn | WWsAcq | WWsHw | WWsConn2 | WWsRelX | WWsRot | WWsApp | WWsTotR | WWsTotW _
+  | WWsChk | WWsFl _ | WWsExcW | WWsChk2 | WWsTrig | WWsRel => true
+  | _ => false
+  end.
+(* ... and the data of the current write_soon call is in the buffer already *)
+Definition appended (pc : wkpc) : bool :=
+  match pc with
+  | WWsTotR | WWsTotW _ | WWsChk | WWsFl _ | WWsExcW | WWsChk2 | WWsTrig | WWsRel => true
+  | _ => false
+  end.
+
+Section L3.
+Variable P : params.
+
+Definition writes (w : wkst) : list nat := r_writes (desc P (w_cur w)).
+Definition off_now (w : wkst) : nat := if appended (wpc w) then w_off w + wsize P w else w_off w.
+Definition complete (u : unit_) : Prop := match u with UResp id n => n = resp_len P id | UCont _ => True end.
+
+Record L3' (st : state) : Prop := {
+  o_ne : obs (sh st) <> [];
+  o_unl : io_unl (ipc (io st)) = true -> requests (sh st) = [];
+  o_nsc : forall j, is_sc (wpc (wk st j)) = false;
+  o_iosc : is_iosc (ipc (io st)) = true -> requests (sh st) = [];
+  o_fio : forall f, io_fl (ipc (io st)) = Some f -> FlInv (sh st) f;
+  o_fwk : forall j f, wk_fl (wpc (wk st j)) = Some f -> FlInv (sh st) f;
+  o_infl : io_fl (ipc (io st)) = None -> (forall j, wk_fl (wpc (wk st j)) = None) -> infl (sh st) = 0;
+  o_wire : transport (sh st);
+  o_prod : produced (sh st) = flat_map (utoks P) (units (sh st));
+  o_ids : resp_ids (units (sh st)) = execs (sh st);
+  o_task : forall j, in_task (wpc (wk st j)) = true ->
+           w_idx (wk st j) < length (writes (wk st j)) /\
+           w_off (wk st j) = list_sum (firstn (w_idx (wk st j)) (writes (wk st j))) /\
+           exists us, units (sh st) = us ++ [UResp (w_cur (wk st j)) (off_now (wk st j))] /\
+                      (connected (sh st) = true -> Forall complete us);
+  o_done : (forall j, in_task (wpc (wk st j)) = false) -> connected (sh st) = true -> Forall complete (units (sh st));
+  o_relx : forall j, is_relx (wpc (wk st j)) = true -> connected (sh st) = false;
+  o_disc : discarded (sh st) <> [] -> io_closed (ipc (io st)) = true;
+  o_dead : io_after_close (ipc (io st)) = true -> connected (sh st) = false;
+  o_app : forall j, app_pc (wpc (wk st j)) = true -> discarded (sh st) = []
+}.
+
+Definition L3 (st : state) : Prop := wsc (sh st) = false -> L3' st.
+
+Lemma L3_init : L3 init.
+Proof.
+  intros _. split; simpl; intros; try discriminate; auto; try congruence.
+  all: try (unfold transport; reflexivity).
+Qed.
+End L3.
